@@ -86,6 +86,13 @@ def _run(V, work, tier):
     for i in range(120 if thorough else 30):
         cases.append(("g%d" % i, P.growing_loop_program(rnd), "grow"))
 
+    # closures made in successive iterations of a tail loop keep that iteration's own bindings (on = off)
+    import c01 as _c01
+    for w in P.WRAPPERS:
+        if w[1] in ("T", "N") and w[0] not in ("if-cond",):
+            for mutual in (False, True):
+                cases.append(("c%s%d" % (w[0], mutual), _c01.closure_loop_program(w, mutual), "closure-loop"))
+
     # Machine predictions: every program with elimination on and off
     recs, drv = [], []
     for cid, forms, kind in cases:
